@@ -19,7 +19,7 @@ def run_case(case):
     from sx import api, conc
     from sx.util import jsonable
     k = api.KERNELS[case['kernel']]
-    st = conc.begin(case['inputs'], k.exact and not case.get('force_float'))
+    st = conc.begin(case['inputs'], (not k.exact) if case.get('alt_mode') else k.exact)
     out = dict(obs=[], observed=[], exc=None, vacuous=False, cut=False)
     try:
         k.fn(**case['params'])
